@@ -238,8 +238,15 @@ def rules(ck, P):
             for n in ir.walk_nodes(b["body"]):
                 if n.get("k") == "if" and n is not flush and buf_h is not None:
                     cond = ir.unparen(n["c"])
-                    nonempty = (cond.get("k") == "un" and cond["e"].get("k") == "mcall" and cond["e"].get("name") == "is_empty" and ir.local_hid(cond["e"]["recv"]) == buf_h) or \
-                        (ir.cmp_norm(cond) is not None and "len()" in "".join(map(str, ir.cmp_norm(cond))))
+                    cn = ir.cmp_norm(cond)
+                    len_nonzero = False
+                    if cn is not None and cond.get("k") == "bin":
+                        l_, r_ = ir.unparen(cond["l"]), ir.unparen(cond["r"])
+                        for a_, b_, op_ in ((l_, r_, cond["op"]), (r_, l_, {"<": ">", ">": "<", "<=": ">=", ">=": "<=", "==": "==", "!=": "!="}.get(cond["op"]))):
+                            if a_.get("k") == "mcall" and a_.get("name") == "len" and ir.local_hid(a_["recv"]) == buf_h:
+                                v_ = ir.const_eval(b_, {})
+                                len_nonzero = (op_ == ">" and v_ == 0) or (op_ == "!=" and v_ == 0) or (op_ == ">=" and v_ == 1)
+                    nonempty = (cond.get("k") == "un" and cond["e"].get("k") == "mcall" and cond["e"].get("name") == "is_empty" and ir.local_hid(cond["e"]["recv"]) == buf_h) or len_nonzero
                     if nonempty and ir.contains(n["then"], lambda y: y.get("k") == "call" and "f" in y and al.hid(y["f"]) == cb[0]["hid"] and ir.local_hid(y["a"][0]) == buf_h):
                         fin = True
             ck.check(fin, "P4", b["q"] + "|flush-final", "a non-empty remainder is flushed after the loop", "the remainder after the loop is not flushed", ir.loc(b))
